@@ -33,6 +33,15 @@ def run(run, replay=None):
     _rcommon.note_pools(cat)
     traces = []
     n = 0
+    for data in fgen.probe_files():          # edge cases first (state carried between parses)
+        h = domdriver.History(cat)
+        e = h.parse(data)
+        if e['status'] == 'ok':
+            e1 = h.ser(1)
+            if e1['status'] == 'ok':
+                h.parse(bytes(e1['bytes']), same_contents_as=1)
+        traces.append(h.trace(n, CHK))
+        n += 1
     ws = wgen.walks(run, rng, 350 if quick else 10000, 12 if quick else 24, 0)
     for b in ws:
         calls = wgen.conc(b, rng)
